@@ -48,4 +48,10 @@ def pathUnescape (mode : PathMode) : Bytes → Option Bytes
       else none
     else (pathUnescape mode (a :: b :: rest)).map (fun r => c :: r)
 
+/-- What a multi-segment capture makes of a value: an escaped slash written `%2f` comes back as `%2F`. -/
+def canonSlash : Bytes → Bytes
+  | c :: a :: b :: rest =>
+    if isHexSlash c a b then 0x25 :: 0x32 :: 0x46 :: canonSlash rest else c :: canonSlash (a :: b :: rest)
+  | l => l
+
 end Vanguard
